@@ -55,7 +55,7 @@ def real_oracle(prog, out):
     if m["vals"] != list(range(prog["ntasks"])):
         v.append(("work_before_resize_lost", f"{m['vals']}"))
     if "exc" in m["res"]:
-        v.append(("resize_raised", m["res"]["exc"]))
+        v.append(("resize_raised", f"{m['res']['exc']} at {m['res'].get('tb')}"))
     elif not prog["new_worker_dies"] and m["after"] != [100, 101, 102]:
         v.append(("executor_unusable_after_resize", f"{m['after']}"))
     return v
